@@ -63,7 +63,9 @@ type env struct {
 
 	bg atomic.Bool // a background flush touched the blobstor: the behaviour is not the scripted one
 
-	events []kit.M // events of the current behaviour
+	race *raceState // a paused explicit flush (flush-versus-delete schedules)
+
+	events []kit.M  // events of the current behaviour
 	panics []string // genuine runtime panics of the code under test (treated as process crashes)
 }
 
@@ -244,8 +246,34 @@ type deco struct {
 	e *env
 }
 
+// raceState: FlushWriteCache running on its own goroutine, paused inside the blobstor Put of `target`
+// (= after flushSingle read the object from the cache, before it is written).
+type raceState struct {
+	gid       uint64
+	target    oid.Address
+	reached   chan struct{}
+	gate      chan struct{}
+	done      chan string
+	passed    bool
+	pre, post []int
+}
+
 func (d *deco) Put(a oid.Address, data []byte) error {
 	e := d.e
+	if r := e.race; r != nil && gid() == r.gid {
+		id := e.w.byOID[a.Object()]
+		switch {
+		case a == r.target && !r.passed:
+			close(r.reached)
+			<-r.gate
+			r.passed = true
+		case !r.passed:
+			r.pre = append(r.pre, id)
+		default:
+			r.post = append(r.post, id)
+		}
+		return d.Storage.Put(a, data)
+	}
 	if gid() != e.mainGID {
 		e.bg.Store(true)
 		return d.Storage.Put(a, data)
@@ -462,6 +490,9 @@ func (e *env) crashReopen() {
 }
 
 func (e *env) finish(res string, crashed bool) {
+	if crashed && e.race != nil {
+		e.opFlushRelease() // the paused flush holds the shard's locks: let it finish before the restart
+	}
 	if crashed {
 		e.crashReopen()
 		e.emit(kit.M{"ev": "Crash", "panics": len(e.panics), "st": e.project()})
@@ -598,4 +629,43 @@ func (e *env) opSetMode(m, fault string) {
 		undo()
 	}
 	e.do("SetMode", kit.M{"m": m, "fault": fault}, res)
+}
+
+// opFlushHold starts Shard.FlushWriteCache on its own goroutine and pauses it between reading object a from the
+// cache and putting it into the blobstor; other requests run meanwhile (flush-versus-delete schedules).
+func (e *env) opFlushHold(a int) {
+	wc := e.sh.VerifShardaWC()
+	if e.race != nil || wc == nil || modeName(e.sh.GetMode()) != "RW" {
+		return
+	}
+	if _, err := wc.Get(e.w.addr[a]); err != nil {
+		return
+	}
+	r := &raceState{target: e.w.addr[a], reached: make(chan struct{}), gate: make(chan struct{}), done: make(chan string, 1)}
+	started := make(chan struct{})
+	go func() {
+		r.gid = gid()
+		e.race = r
+		close(started)
+		r.done <- safely(func() string { return resClass(e.sh.FlushWriteCache(false)) })
+	}()
+	<-started
+	select {
+	case <-r.reached:
+		e.do("FlushHold", kit.M{"a": a, "ids": append([]int{}, r.pre...)}, "ok")
+	case res := <-r.done: // never got to a: an ordinary complete flush
+		e.race = nil
+		panic("flush did not reach the held address: " + res)
+	}
+}
+
+func (e *env) opFlushRelease() {
+	r := e.race
+	if r == nil {
+		return
+	}
+	close(r.gate)
+	res := <-r.done
+	e.race = nil
+	e.do("FlushRelease", kit.M{"ids": append([]int{}, r.post...)}, res)
 }
